@@ -317,11 +317,11 @@ def tyKey : Ty → Bytes
       (frame (if h then [1, 0x74] ++ ekStr [0x54, 0x75, 0x70, 0x6c, 0x65] ++ tyKeys ts ++ sizeParams ts.length ts.length
               else undefKey) ++
        (frame undefKey ++ frame undefKey))
-  -- `RuntimeType.Parameters()` (/repo fix 1cd0d3f): nothing for the default only; else the runtime, the name unless it is
-  -- empty, the pattern (a Regexp type) if there is one
+  -- `RuntimeType.Parameters()` (/repo fixes 1cd0d3f, f14f4ca): nothing for the default only; else the runtime, the name unless
+  -- it is empty AND no pattern follows, the pattern (a Regexp type) if there is one
   | .runtime rt n p => [1, 0x74] ++ ekStr (Ty.runtime rt n p).name ++
       (if (rt.isEmpty ∧ n.isEmpty) ∧ p.isNone then []
-       else ekStr rt ++ ((if n.isEmpty then [] else ekStr n) ++ (match p with | none => [] | some p => frame (rxTyKey p))))
+       else ekStr rt ++ ((if n.isEmpty ∧ p.isNone then [] else ekStr n) ++ (match p with | none => [] | some p => frame (rxTyKey p))))
 def tyKeys : List Ty → Bytes
   | [] => []
   | t :: ts => frame (tyKey t) ++ tyKeys ts
